@@ -58,6 +58,7 @@ func cmdCheck(args []string) int {
 	eng.timeoutS = 10
 	if *tier == "thorough" {
 		eng.timeoutS = 60
+		eng.crossCheck = true
 	}
 	if *timeout > 0 {
 		eng.timeoutS = *timeout
